@@ -24,8 +24,10 @@
 (*               transaction must apply; ValidateState compares            *)
 (*                                                                         *)
 (* Switches (TRUE = as coded): RevertOnFailure (RevertToSnapshot after a   *)
-(* failed transaction), ReceiptOnlyOnSuccess.  With a switch FALSE TLC     *)
-(* must find a counterexample: the properties depend on the mechanism.     *)
+(* failed transaction), ReceiptOnlyOnSuccess, PoolCreditOnce (the gas pool *)
+(* gets the unused gas of a rejected message back exactly once).  With a   *)
+(* switch FALSE TLC must find a counterexample: the properties depend on   *)
+(* the mechanism.                                                          *)
 (*                                                                         *)
 (* Property layer: BuilderAccepted; MinerIncludesOnlyExecutable (a         *)
 (* transaction the miner dropped as failed leaves no trace in the block's  *)
@@ -35,7 +37,10 @@
 (***************************************************************************)
 EXTENDS Integers, Sequences, FiniteSets, TLC, Json
 
-CONSTANTS Accts, MaxSubmit, MaxBlocks, BlockGas, Funds, RevertOnFailure, ReceiptOnlyOnSuccess, GenMode
+CONSTANTS Accts, MaxSubmit, MaxBlocks, BlockGas, Funds, RevertOnFailure, ReceiptOnlyOnSuccess,
+          PoolCreditOnce,   \* TRUE as coded: after a rejected message the gas pool gets the unused gas back once (refundGas)
+          Kinds, Prices,    \* the submitted transaction kinds and gas prices (subsets keep directed runs small)
+          GenMode
 
 TxGas == 1                     \* intrinsic gas of every transaction (gas is counted in units)
 Other(a) == CHOOSE b \in Accts : b # a
@@ -63,15 +68,20 @@ PendNonce(a) == LET ns == { t.n : t \in { u \in pool : u.a = a } } IN
 \* transfer whose gas limit is the block's: it needs the whole gas pool to start and uses TxGas)
 Submit ==
    /\ phase = "submit" /\ Cardinality(pool) < MaxSubmit /\ nid <= 2 * MaxSubmit
-   /\ \E a \in Accts, k \in {"transfer", "drain", "biggas", "gap", "widegas"}, p \in {1, 2} :
-        LET g  == IF k = "biggas" THEN 2 ELSE IF k = "widegas" THEN BlockGas ELSE TxGas   \* gas LIMIT classes: exact, ample, the block's
-            x  == IF k = "drain" THEN sa.bal[a] - 1 - g * p ELSE 1
+   /\ \E a \in Accts, k \in Kinds, p \in Prices :
+        \* gas LIMIT classes: exact (TxGas), ample ("ample": a transfer with twice the gas it needs), the block's ("widegas")
+        LET g  == IF k \in {"biggas", "ample"} THEN 2 ELSE IF k = "widegas" THEN BlockGas ELSE TxGas
+            \* "drain" leaves the sender 2: enough to buy the gas of an ample follower, not enough for what that moves
+            x  == IF k = "drain" THEN sa.bal[a] - 2 - g * p ELSE 1
             nn == PendNonce(a) + (IF k = "gap" THEN 1 ELSE 0)
             t  == [a |-> a, n |-> nn, p |-> p, g |-> g, k |-> k, x |-> IF x < 0 THEN 0 ELSE x] IN
         /\ sa.bal[a] >= t.g * t.p + t.x                       \* validateTx: affordable by itself
         /\ t.g <= BlockGas
         /\ pool' = pool \cup {t}
-        /\ subs' = Append(subs, [k |-> k, a |-> a, b |-> Other(a), v |-> "g1", x |-> 1, p |-> p, f |-> 0, c |-> 0, r |-> 0])
+        \* the driver's amounts: a drained sender keeps 60000 LU (the gas of an ample follower, not the 30000 LU that moves)
+        /\ subs' = Append(subs, [k |-> k, a |-> a, b |-> Other(a), v |-> "g1",
+                                 x |-> IF k = "drain" THEN 60000 ELSE IF k = "ample" THEN 30000 ELSE 1,
+                                 p |-> p, f |-> 0, c |-> 0, r |-> 0])
    /\ nid' = nid + 1
    /\ UNCHANGED <<sa, sb, n, phase, heap, gp, work, incl, rcpts, hdr, ok, hist>>
 
@@ -98,7 +108,9 @@ Apply(s, t, g) ==
         ELSE IF s1.bal[t.a] < t.x
              \* the EVM refuses the transfer: a consensus error AFTER the state was touched; refundGas has returned the
              \* unused gas to the sender and to the pool, the intrinsic gas stays taken from the pool
-             THEN [err |-> "nofunds", s |-> [s1 EXCEPT !.bal[t.a] = @ + (t.g - TxGas) * t.p], gas |-> 0, gpl |-> TxGas]
+             \* (a pool that were credited the bought gas once more on top of that would end up ABOVE where it started)
+             THEN [err |-> "nofunds", s |-> [s1 EXCEPT !.bal[t.a] = @ + (t.g - TxGas) * t.p], gas |-> 0,
+                   gpl |-> IF PoolCreditOnce THEN TxGas ELSE TxGas - t.g]
              ELSE [err |-> "", s |-> [s1 EXCEPT !.bal[t.a] = @ - t.x + (t.g - TxGas) * t.p, !.bal[Other(t.a)] = @ + t.x],
                    gas |-> TxGas, gpl |-> TxGas]
 
